@@ -25,6 +25,12 @@ def body(rng: Rng, fmt: str, kind: str, xref: Optional[str], plant: Optional[str
     is_func = kind in ('func', 'method', 'classmethod', 'staticmethod')
     if fmt == 'epytext':
         t = f' Summary with I{{italic}} and C{{code}}' + (f' and L{{{xref}}}' if xref else '') + f'. {s1}\n\n{s2}\n\n  - item {s3}\n  - second item\n\n'
+        if rng.chance(0.3):
+            # section headings; the same (long) heading may legitimately occur twice
+            h = rng.choice(['Usage', 'Notes about thread safety and reentrancy guarantees of this API', 'Implementation details'])
+            t += f'{h}\n' + '=' * len(h) + f'\n\n{s3}\n\n'
+            if rng.chance(0.5):
+                t += f'{h}\n' + '=' * len(h) + f'\n\nAgain: {s1}\n\n'
         if is_func:
             t += '@param a: the a argument\n@type a: C{int}\n@return: something useful\n@rtype: C{str}\n'
         elif kind == 'class':
@@ -36,6 +42,9 @@ def body(rng: Rng, fmt: str, kind: str, xref: Optional[str], plant: Optional[str
         return t
     if fmt == 'restructuredtext':
         t = f' Summary with *emphasis* and ``code``' + (f' and `{xref}`' if xref else '') + f'. {s1}\n\n{s2}\n\n- item {s3}\n- second item\n\n'
+        if rng.chance(0.3):
+            h = rng.choice(['Usage', 'Notes about thread safety and reentrancy guarantees of this API', 'Implementation details'])
+            t += f'{h}\n' + '-' * len(h) + f'\n\n{s3}\n\n'
         if is_func:
             t += ':param a: the a argument\n:type a: int\n:returns: something useful\n:rtype: str\n'
         else:
